@@ -382,9 +382,12 @@ FormatterToSourceTree::comment(const XMLCh* const   data)
 
 void
 FormatterToSourceTree::cdata(
-            const XMLCh* const  /* ch */,
-            const size_type     /* length */)
+            const XMLCh* const  ch,
+            const size_type     length)
 {
+    // The source tree has no CDATA section nodes (nor has the
+    // XPath data model): the characters are ordinary text.
+    characters(ch, length);
 }
 
 
